@@ -71,8 +71,11 @@ def static_asserts(ctx, rng):
             f.write(f'_Static_assert(const_pop(0x{c:x}ull) == {ref("const_pop", c)}, "const_pop 0x{c:x}");\n')
             f.write(f'_Static_assert(const_lssb(0x{c:x}ull) == {ref("const_lssb", c)}, "const_lssb 0x{c:x}");\n')
             f.write(f'enum {{ e{i} = const_pop(0x{c:x}ull) + const_lssb(0x{c:x}ull) }};\n')
+            # the value in the macro's own expression type: -1 must be negative, and halve to 0
+            f.write(f'_Static_assert((const_lssb(0x{c:x}ull) < 0) == {1 if c == 0 else 0}, "const_lssb-sign 0x{c:x}");\n')
+            f.write(f'_Static_assert(const_lssb(0x{c:x}ull) / 2 == {int(ref("const_lssb", c) / 2)}, "const_lssb-half 0x{c:x}");\n')
     rc, out, err = vlib.sh(['gcc', '-fsyntax-only', '-I' + os.path.join(vlib.REPO, 'include'), src], timeout=120)
-    fails = re.findall(r'static assertion failed: "(\S+) (0x[0-9a-f]+)"', err)
+    fails = [(o.split('-')[0], c) for o, c in re.findall(r'static assertion failed: "(\S+) (0x[0-9a-f]+)"', err)]
     if rc != 0 and not fails:
         ctx.broken.append('constexpr.h macros are no longer integer constant expressions: ' + err[-400:])
     return len(consts) * 2, fails
@@ -101,6 +104,25 @@ def run(ctx):
     ctx.cov['traces_validated_against_impl'] = len(calls) if lean_out is not None else 0
     for s in calls[:2] + calls[len(calls) // 2: len(calls) // 2 + 2]:
         ctx.sample({'call': f'{s[0]}({s[1]:#x})', 'result': ref(*s)})
+    # call-order independence: each function as the FIRST bitops call of a fresh process (lazily initialised tables etc.)
+    for first in ('ctz', 'clz', 'ilog2', 'bitcnt'):
+        xs = [0x4000, 0x80000000, 1, 0x00ff0000, rng.next() & 0xffffffff or 1]
+        rc, out, err = vlib.sh([exe, 'lines'], input=''.join(f'{first} {x}\n' for x in xs), timeout=60)
+        got = out.split()
+        for x, g in zip(xs, got + ['missing'] * len(xs)):
+            ctx.count(('first-call', first, x))
+            if g != str(ref(first, x)) and not ctx.violations:
+                ctx.violation({'obligation': f'{first} as the first bit-helper call of a fresh process', 'call': f'{first}({x:#x})', 'expected': ref(first, x), 'observed': g,
+                               'how_to_rerun': f'echo "{first} {x}" | pure lines   (fresh process)'}, key=f'first:{first}:{x}')
+    # const_lssb in its own expression type: negative exactly for 0, and -1/2 == 0
+    sx = [0, 1, 2, 1 << 31, 1 << 32, 1 << 63, (1 << 64) - 1] + [rng.next() for _ in range(20)]
+    rc, out, err = vlib.sh([exe, 'lines'], input=''.join(f'const_lssb_sign {x}\n' for x in sx), timeout=60)
+    for x, g in zip(sx, out.strip('\n').split('\n') + ['missing'] * len(sx)):
+        want = f'{1 if x == 0 else 0} {int(ref("const_lssb", x) / 2)}'
+        ctx.count(('sign', x))
+        if g != want and not ctx.violations:
+            ctx.violation({'obligation': 'const_lssb evaluated in its own expression type (sign test, halving)', 'call': f'const_lssb({x:#x})', 'expected': want + '  (is-negative, value/2)',
+                           'observed': g}, key=f'sign:{x}')
     nsa, sfails = static_asserts(ctx, rng)
     ctx.cov['static_asserts'] = nsa
     for op, c in sfails[:1]:
